@@ -13,6 +13,8 @@
        be ignored that way; .EQN. .NEN. .LT. .LE. .GT. .GE. compare NUMBERS: the item is
        converted like any data item (Fortran forms), an item that is not a number is an ERROR
      * it is possible to filter on a DROPped column
+     * an item that is the missing-data token (-99) is a missing value, not the number -99: under a numeric operator
+       it matches nothing (IGNORE=(X.LT.0) keeps the record, ACCEPT=(X.LT.0) drops it); in the frame it is NaN
    Left open (not judged):
      * numeric comparison of a NULL item ("." / empty): the document says filters cannot act
        on NULL, pharmpy compares the NULL value                      -> outcome "unspec"
@@ -25,7 +27,7 @@ CONSTANTS MaxRows, MaxFilters, Profile, EmitMod, EmitSel
 VARIABLES phase, fmode, table, drop, filters, fi, live, alive2, err, unspec, result
 vars == <<phase, fmode, table, drop, filters, fi, live, alive2, err, unspec, result>>
 
-Col1Items == {<<"1">>, <<"2">>, <<".">>, <<"1", ".", "0">>, <<"A">>, <<"2", "-", "1">>}
+Col1Items == {<<"1">>, <<"2">>, <<".">>, <<"1", ".", "0">>, <<"A">>, <<"2", "-", "1">>, MissingToken}
              \cup (IF Profile >= 2 THEN {<<"0">>, <<"-", "1">>, <<"1", "D", "1">>} ELSE {})
 Col2Items == {<<"1">>, <<"A">>} \cup (IF Profile >= 2 THEN {<<"2">>} ELSE {})
 TextOps == {"EQ", "NE"}
@@ -55,6 +57,8 @@ Match(row, f) ==
     ELSE IF f.op = "NE" THEN (IF it # f.val THEN "T" ELSE "F")
     ELSE LET c == Classify(it) IN
          IF c.k = "null" THEN "U"
+         \* a missing value satisfies no equality / ordering comparison; "not equal" of a missing value is left open
+         ELSE IF c.k = "missing" THEN (IF f.op = "NEN" THEN "U" ELSE "F")
          ELSE IF c.k # "num" THEN "E"
          ELSE LET s == Cmp(NumOf(it), NumOf(f.val)) IN
               IF CASE f.op = "EQN" -> s = 0 [] f.op = "NEN" -> s # 0 [] f.op = "LT" -> s < 0
@@ -74,6 +78,19 @@ ApplyFilter ==
     /\ fi' = fi + 1
     /\ UNCHANGED <<phase, fmode, table, drop, filters, result>>
 
+\* ---- write/read law for a model that carries the list (C13, last clause)
+\* The dataset of the model IS Rows(live).  When pharmpy writes it (write_csv) and generates the code for it (write_model),
+\* reading the generated code must give exactly these rows: the generated $DATA must not apply the list once more, because
+\* the list is not idempotent on the WRITTEN text - .EQ./.NE. compare text and the number 1 is written as 1.0, NULL as its
+\* value, ...  `Sensitive` is TLC's prediction of the cases in which a retained list would change the rows again.
+Written(it) == CASE it = <<"1">> -> <<"1", ".", "0">> [] it = <<"2">> -> <<"2", ".", "0">> [] it = <<"0">> -> <<"0", ".", "0">>
+                 [] it = <<"2", "-", "1">> -> <<"0", ".", "2">> [] it = <<"-", "1">> -> <<"-", "1", ".", "0">>
+                 [] it = <<"1", "D", "1">> -> <<"1", "0", ".", "0">> [] it = <<".">> -> <<"0", ".", "0">> [] OTHER -> it
+WrittenRow(row) == [j \in 1..2 |-> IF j = drop THEN row[j] ELSE Written(row[j])]
+KeptAgain(row) == IF fmode = "IGNORE" THEN \A n \in 1..Len(filters) : Match(row, filters[n]) = "F"
+                  ELSE \A n \in 1..Len(filters) : Match(row, filters[n]) = "T"
+Sensitive == \E i \in 1..Len(table) : live[i] /\ ~KeptAgain(WrittenRow(table[i]))
+
 Cell(row, j) == IF j = drop THEN [k |-> "text", canon |-> row[j]] ELSE Classify(row[j])
 Rows(keep) == LET idx == SelectSeq([i \in 1..Len(table) |-> i], LAMBDA i : keep[i])
               IN [n \in 1..Len(idx) |-> [j \in 1..2 |-> Cell(table[idx[n]], j)]]
@@ -84,9 +101,12 @@ Convert ==
     /\ phase = "apply" /\ (fi > Len(filters) \/ err # "")
     /\ phase' = "done"
     /\ result' = [outcome |-> Outcome(Rows(live)), rows |-> IF Outcome(Rows(live)) = "ok" THEN Rows(live) ELSE <<>>,
+                  sensitive |-> Sensitive,
                   altoutcome |-> IF fmode = "ACCEPT" /\ Len(filters) > 1 THEN Outcome(Rows(alive2)) ELSE "none",
                   altrows |-> IF fmode = "ACCEPT" /\ Len(filters) > 1 /\ Outcome(Rows(alive2)) = "ok" THEN Rows(alive2) ELSE <<>>]
     /\ UNCHANGED <<fmode, table, drop, filters, fi, live, alive2, err, unspec>>
+
+ReadBackOfWritten == Rows(live)          \* the law: identity on the model's dataset
 
 Init == /\ phase = "gen" /\ fmode \in {"IGNORE", "ACCEPT"} /\ drop \in 0..1
         /\ table = <<>> /\ filters = <<>> /\ fi = 0 /\ live = <<>> /\ alive2 = <<>> /\ err = "" /\ unspec = FALSE /\ result = <<>>
@@ -110,6 +130,12 @@ OrderShields ==
             /\ \A m \in 1..(n - 1) : Match(table[i], filters[m]) # "T"
 
 \* ---------------------------------------------------------------- emission
+\* the token is never confused with a number by the comparison: a row whose compared item is the token survives
+\* every IGNORE list made of .EQN. / ordering conditions on that column
+MissingMatchesNothing ==
+    (Done /\ fmode = "IGNORE" /\ err = "" /\ ~unspec) =>
+        \A i \in 1..Len(table) :
+            (\A n \in 1..Len(filters) : filters[n].op \in NumOps /\ table[i][filters[n].col] = MissingToken) => live[i]
 RECURSIVE HashS(_, _)
 HashS(s, h) == IF s = <<>> THEN h ELSE HashS(Tail(s), (h * 31 + Len(Head(s)) * 7 + (IF Head(s)[1] = "1" THEN 1 ELSE IF Head(s)[1] = "2" THEN 2 ELSE IF Head(s)[1] = "A" THEN 3 ELSE 4)) % 1000003)
 RECURSIVE HashT(_, _)
@@ -118,7 +144,11 @@ RECURSIVE HashF(_, _)
 HashF(fs, h) == IF fs = <<>> THEN h
                 ELSE HashF(Tail(fs), HashS(<<Head(fs).val>>, (h * 13 + Head(fs).col + (CASE Head(fs).op = "EQ" -> 1 [] Head(fs).op = "NE" -> 2 [] Head(fs).op = "EQN" -> 3
                       [] Head(fs).op = "NEN" -> 4 [] Head(fs).op = "LT" -> 5 [] Head(fs).op = "LE" -> 6 [] Head(fs).op = "GT" -> 7 [] OTHER -> 8) * 3) % 1000003))
-Selected == HashF(filters, HashT(table, drop + (IF fmode = "IGNORE" THEN 0 ELSE 2))) % EmitMod = EmitSel
+HashCase == HashF(filters, HashT(table, drop + (IF fmode = "IGNORE" THEN 0 ELSE 2)))
+\* cases in which a retained list would bite (Sensitive) are emitted eight times as densely
+WMod == (EmitMod \div 8) + 1
+Selected == \/ HashCase % EmitMod = EmitSel
+            \/ (result.outcome = "ok" /\ result.sensitive /\ HashCase % WMod = EmitSel % WMod)
 Case == [fmode |-> fmode, drop |-> drop, table |-> table, filters |-> filters, result |-> result]
 EmitCase == (Done /\ Selected) => PrintT(<<"CASE", ToJson(Case)>>)
 =============================================================================
